@@ -141,6 +141,13 @@ func (e *Exec) snapVerify(i int) {
 		e.iterStep(h)
 		return
 	}
+	if h.kind == "store" && e.store != nil && simrt.Chance(0.3, "handle-previous") {
+		// walking the history from a held store snapshot must not affect it
+		if prev, err := e.store.SnapshotPrevious(h.ss); err == nil && prev != nil {
+			prev.Close()
+		}
+		e.probe("handle-snapshot-previous")
+	}
 	if m := equalContent(h.ss, h.want, e.probeKeys(), ""); m != nil {
 		e.failD("frozen-violated", map[string]string{"symptom": m.Kind, "where": "handle-" + h.kind, "path": m.Path, "key": m.Key},
 			"%s snapshot opened at op %d no longer shows the content it was taken with: %s", h.kind, h.opened, m)
